@@ -21,16 +21,16 @@ func init() {
 			"a call of IncompleteGamma/DiscreteGamma/Dirichlet/BuildWeights* (convergence and rejection loops) that does not return within 20 s (normal: microseconds), confirmed by a re-run of the single case in a fresh process with a 30 s limit, is reported as a violation: a call without a value has no value in [0,1]",
 			"absence of violations is established on the explored cases only",
 		},
-		LevelText: "Generated-input search against validity predicates and reference values: ~160 000 (quick) to ~1.7 million (thorough) seeded weight vectors, Dirichlet samples, incomplete-gamma evaluations, discrete-gamma category sets and weightboot executions, judged against normalisation predicates, gonum's regularised incomplete gamma, the defining series and the true category means. Shows absence of violations on what was explored.",
+		LevelText: "Generated-input search against validity predicates and reference values: ~95 000 (quick) to ~1.7 million (thorough) seeded weight vectors, Dirichlet samples, incomplete-gamma evaluations, discrete-gamma category sets and weightboot executions, judged against normalisation predicates, gonum's regularised incomplete gamma, the defining series and the true category means. Shows absence of violations on what was explored.",
 		LevelNote: "trusts gonum mathext.GammaIncReg and the harness's own series/bisection (cross-checked against each other at 1e-9); sampling distributions themselves (means, variances of the variates) are not part of the statement and are not tested",
 		Technique: "property-based testing (rapid): validity predicates on seeded draws, differential against an unrelated implementation and the defining series, command-line observation",
 		DesignRef: "DESIGN.md section 5, C20",
 		Runs: []runSpec{
-			{Name: "weights", Test: "^TestWeights$", Quick: 40000, Thorough: 60000, Shards: 4, TimeoutS: 300},
-			{Name: "dirichlet", Test: "^TestDirichlet$", Quick: 40000, Thorough: 120000, Shards: 4, TimeoutS: 300},
-			{Name: "incomplete-gamma", Test: "^TestIncompleteGamma$", Quick: 40000, Thorough: 120000, Shards: 4, TimeoutS: 300},
-			{Name: "discrete-gamma", Test: "^TestDiscreteGamma$", Quick: 30000, Thorough: 60000, Shards: 8, TimeoutS: 300},
-			{Name: "cli", Test: "^TestCLI$", Quick: 600, Thorough: 2000, Shards: 4, TimeoutS: 300},
+			{Name: "weights", Test: "^TestWeights$", Quick: 25000, Thorough: 60000, Shards: 4, TimeoutS: 300},
+			{Name: "dirichlet", Test: "^TestDirichlet$", Quick: 25000, Thorough: 120000, Shards: 4, TimeoutS: 300},
+			{Name: "incomplete-gamma", Test: "^TestIncompleteGamma$", Quick: 25000, Thorough: 120000, Shards: 4, TimeoutS: 300},
+			{Name: "discrete-gamma", Test: "^TestDiscreteGamma$", Quick: 20000, Thorough: 60000, Shards: 8, TimeoutS: 300},
+			{Name: "cli", Test: "^TestCLI$", Quick: 400, Thorough: 2000, Shards: 4, TimeoutS: 300},
 		},
 	})
 }
